@@ -1305,6 +1305,28 @@ def gen_late_script(r):
 MALFORMED = ["garbage", "truncated", "noaudit", "badjson", "norequired"]
 
 
+def audit_readable(path):
+    """can an audit trail be obtained from the file at all?  Our own reader (tar stream, pax header, gzip, json, required
+    keys), independent of Bob's: a damaged artifact whose audit trail at the head of the tar stream is intact is an
+    ordinary indexed artifact and may be deleted like any other."""
+    import tarfile
+    try:
+        with tarfile.open(path, "r|*") as t:
+            if t.pax_headers.get("bob-archive-vsn") != "1":
+                return False
+            m = t.next()
+            while m is not None and m.name != "meta/audit.json.gz":
+                m = t.next()
+            if m is None:
+                return False
+            tree = json.loads(gzip.GzipFile(fileobj=t.extractfile(m)).read().decode("utf8"))
+        a = tree["artifact"]
+        return all(k in a for k in ("variant-id", "build-id", "artifact-id", "result-hash", "meta", "build", "dependencies")) \
+            and isinstance(tree["references"], list)
+    except Exception:  # noqa
+        return False
+
+
 def malformed_worker(item):
     """artifacts that cannot be read: a command that fails deletes nothing, and the unreadable artifact is never deleted"""
     subseed, base = item
@@ -1343,13 +1365,14 @@ def malformed_worker(item):
             with gzip.open(dst, "wb") as gz:
                 with tarfile.open(None, "w", fileobj=gz, format=tarfile.PAX_FORMAT, pax_headers={'bob-archive-vsn': "1"}) as t:
                     t.add(a, "meta/other" if kind == "noaudit" else "meta/audit.json.gz")
+        readable = audit_readable(dst)
         before = all_files(ex.root)
         exprs = gen_exprs(r)
         op = r.choice([["scan"], ["find", exprs, False], ["clean", exprs, False, False, False], ["clean", exprs, False, True, False]])
         status, k, out = run_bob(ex.root, ex.argv(op))
         after = all_files(ex.root)
         res.append({"malformed": kind, "op": op[0], "status": status, "kind": k, "deleted": sorted(set(before) - set(after)),
-                    "subseed": subseed, "bad": rel_path(bid)})
+                    "subseed": subseed, "bad": rel_path(bid), "readable": readable})
     except Exception as e:  # noqa
         import traceback
         res.append({"error": "".join(traceback.format_exception(type(e), e, e.__traceback__))[-2000:]})
@@ -1477,7 +1500,8 @@ def oracle(ctx):
             if m["status"] != "ok" and m["deleted"]:
                 ctx.violation("failed command deleted %s" % m["deleted"], {"kind": "malformed", "subseed": m["subseed"]},
                               "failed-command-deletes-files")
-            if m["bad"] in m["deleted"]:
+            ctx.count("malformed_audit", "%s: %s" % (m["malformed"], "audit trail still readable" if m["readable"] else "no audit trail obtainable"))
+            if m["bad"] in m["deleted"] and not m["readable"]:
                 ctx.violation("unreadable artifact %s was deleted" % m["bad"], {"kind": "malformed", "subseed": m["subseed"]},
                               "unreadable-artifact-deleted")
     run_sliced(ctx, malformed_worker, mitems, T_MALFORMED, "oracle: malformed artifacts", handle_malformed)
@@ -1626,7 +1650,7 @@ def replay(ctx, case):
             ctx.violation(bad[0], case, bad[1])
     elif k == "malformed":
         for m in malformed_worker((case["subseed"], os.path.join(ctx.tmp, "replay-m"))):
-            if (m.get("status") != "ok" and m.get("deleted")) or m.get("bad") in m.get("deleted", []):
+            if (m.get("status") != "ok" and m.get("deleted")) or (m.get("bad") in m.get("deleted", []) and not m.get("readable")):
                 ctx.violation("unreadable artifact handling: %s" % m, case)
 
 
